@@ -146,4 +146,49 @@ theorem winColumn_partition_local (w : Window) (rows : List Row) (r : Row) :
   have := hperm _ _ x hx
   simpa using (List.mem_filter.mp this).2
 
+/-! ### T5 what the two short forms mean, row by row (for partitions of any length) -/
+
+/-- every frame is a contiguous stretch of the ordered partition -/
+theorem frame_is_contiguous (fr : Option Frame) (i : Nat) (part : List Row) :
+    ∃ a b, frameSlice fr i part = (part.drop a).take b := by
+  cases fr with
+  | none => exact ⟨0, part.length, by simp [frameSlice]⟩
+  | some f =>
+    obtain ⟨lo, hi⟩ := f
+    cases lo <;> cases hi <;> simp only [frameSlice] <;>
+      (split
+       · exact ⟨0, 0, by simp⟩
+       · exact ⟨_, _, rfl⟩)
+
+/-- `expanding:true` (ROWS UNBOUNDED PRECEDING .. CURRENT ROW): row `i` sees exactly the first `i + 1` rows of its partition -/
+theorem expanding_frame_is_prefix (i : Nat) (part : List Row) (h : i < part.length) :
+    frameSlice (some { lo := none, hi := some 0 }) i part = part.take (i + 1) := by
+  simp only [frameSlice]
+  have h1 : min ((part.length : Int) - 1) ((i : Int) + 0) = (i : Int) := by omega
+  have h2 : ¬ ((i : Int) < 0) := by omega
+  have h3 : ((i : Int) - 0 + 1).toNat = i + 1 := by omega
+  simp only [h1, h2, h3, ↓reduceIte]
+  simp
+
+/-- `rolling:n` (ROWS n-1 PRECEDING .. CURRENT ROW): row `i` sees the last `n` of the first `i + 1` rows - exactly
+`min n (i + 1)` rows, ending with the current one -/
+theorem rolling_frame_is_last_n (n : Nat) (hn : 0 < n) (i : Nat) (part : List Row) (h : i < part.length) :
+    frameSlice (some { lo := some (1 - (n : Int)), hi := some 0 }) i part = (part.take (i + 1)).drop (i + 1 - n) ∧
+    (frameSlice (some { lo := some (1 - (n : Int)), hi := some 0 }) i part).length = min n (i + 1) := by
+  have key : frameSlice (some { lo := some (1 - (n : Int)), hi := some 0 }) i part = (part.take (i + 1)).drop (i + 1 - n) := by
+    simp only [frameSlice]
+    have h1 : min ((part.length : Int) - 1) ((i : Int) + 0) = (i : Int) := by omega
+    have h2 : ¬ ((i : Int) < max 0 ((i : Int) + (1 - (n : Int)))) := by omega
+    have h3 : (max 0 ((i : Int) + (1 - (n : Int)))).toNat = i + 1 - n := by omega
+    have h4 : ((i : Int) - max 0 ((i : Int) + (1 - (n : Int))) + 1).toNat = i + 1 - (i + 1 - n) := by omega
+    simp only [h1, h2, h3, h4, ↓reduceIte]
+    rw [List.drop_take]
+  refine ⟨key, ?_⟩
+  rw [key]
+  simp only [List.length_drop, List.length_take]
+  omega
+
+example : frameSlice (some { lo := some (1 - ((2 : Nat) : Int)), hi := some 0 }) 2 [[.int 1], [.int 2], [.int 3], [.int 4]] = [[.int 2], [.int 3]] := by
+  decide
+
 end Props.C04
